@@ -513,9 +513,9 @@ Definition has_type (t : ptype) (v : pyval) : bool :=
 (* the guard of the list-slot defect: a dict given to a [str] parameter is stored as it is *)
 Definition slot_guard (p : param) (v : pyval) : bool :=
   match p_ty p, v with PList _, VDict _ => false | _, _ => true end.
-(* w is v, or v coerced without loss of information *)
-Definition lossless (p : param) (v w : pyval) : bool :=
-  pyval_eqb v w ||
+(* w is v coerced without loss of information: int("12") = 12, a bare str wrapped / split into
+   the list it denotes (joining the result gives the text back) *)
+Definition coerced (p : param) (v w : pyval) : bool :=
   match p_ty p, v, w with
   | PScalar TInt, VStr s, VInt z => match py_int s with Ok z' => Z.eqb z z' | _ => false end
   | PList TStr, VStr s, VList l =>
@@ -528,3 +528,28 @@ Definition lossless (p : param) (v w : pyval) : bool :=
       match p_deser p with DSpSep => str_eqb (join [sp] (strs l)) s | _ => false end
   | _, _, _ => false
   end.
+
+(* ---- the cross-parameter rules of oidc.AuthorizationRequest as the specification states them ---- *)
+Definition list_has (x : pystr) (v : option pyval) : bool :=
+  match v with Some (VList l) => existsb (fun i => py_eq (VStr x) i) l | _ => false end.
+Definition list_len (v : option pyval) : nat := match v with Some (VList l) => length l | _ => O end.
+Definition is_list_or_absent (v : option pyval) : bool :=
+  match v with Some (VList _) | None => true | _ => false end.
+Definition authz_lists_typed (m : msg) : bool :=
+  is_list_or_absent (assoc (PS "response_type") m) && is_list_or_absent (assoc (PS "scope") m)
+  && is_list_or_absent (assoc (PS "prompt") m).
+Definition authz_ok (nonce_kw : option pystr) (m : msg) : bool :=
+  has_key (PS "response_type") m
+  (* an id_token response type needs a nonce (equal to the expected one when that is given) *)
+  && implb (list_has (PS "id_token") (assoc (PS "response_type") m))
+           (match assoc (PS "nonce") m, nonce_kw with
+            | Some n, Some x => py_eq n (VStr x)
+            | Some _, None => true
+            | None, _ => false
+            end)
+  (* openid must be among the scopes *)
+  && list_has (PS "openid") (assoc (PS "scope") m)
+  (* offline_access needs prompt=consent *)
+  && implb (list_has (PS "offline_access") (assoc (PS "scope") m)) (list_has (PS "consent") (assoc (PS "prompt") m))
+  (* prompt=none stands alone *)
+  && negb (list_has (PS "none") (assoc (PS "prompt") m) && Nat.ltb 1 (list_len (assoc (PS "prompt") m))).
